@@ -67,6 +67,7 @@ func (t *TcpConn) SendPacket(pkt fatchoy.IPacket) error {
 	if !t.IsRunning() {
 		return ErrConnIsClosing
 	}
+	verifSched("send.checked", t)
 	select {
 	case t.outbound <- pkt:
 		return nil
@@ -111,6 +112,7 @@ func (t *TcpConn) finally() {
 	}
 	t.state.Set(fatchoy.StateTerminated)
 	close(t.outbound)
+	verifSched("finally.closed", t)
 	t.outbound = nil
 	t.inbound = nil
 	t.errChan = nil
